@@ -92,7 +92,7 @@ func c09World(t *testing.T, r *simcore.Run) any {
 	idx := int(r.Index)
 	total := c09Total()
 	nEnumRuns := (total + c09CasesPerRun - 1) / c09CasesPerRun
-	overSCION, srvAuth := false, false
+	overSCION, srvAuth, viaEndhost := false, false, false
 	switch {
 	case idx >= nEnumRuns && idx < 2*nEnumRuns:
 		overSCION = true
@@ -142,7 +142,13 @@ func c09World(t *testing.T, r *simcore.Run) any {
 	wrap := func(payload []byte, srcIP string, srcPort uint16, note string) *simnet.Datagram {
 		if overSCION {
 			raw := buildSCION(scCliIA, scSrvIA, srcIP, scSrvIP, srcPort, scSvcPort, segs, 0, payload)
-			return net.NewDatagram(rtr, netip.AddrPortFrom(netip.MustParseAddr(scSrvIP), scSvcPort), raw, note)
+			// a border router hands a packet either to the service's own port or to the end-host
+			// port 30041, where the server runs a listener of its own: both answer in place
+			underlay := scSvcPort
+			if viaEndhost {
+				underlay = scEndhost
+			}
+			return net.NewDatagram(rtr, netip.AddrPortFrom(netip.MustParseAddr(scSrvIP), uint16(underlay)), raw, note)
 		}
 		return net.NewDatagram(netip.AddrPortFrom(netip.MustParseAddr(srcIP), srcPort), srvAddr, payload, note)
 	}
@@ -275,6 +281,10 @@ func c09World(t *testing.T, r *simcore.Run) any {
 				if r.Sleep(fmt.Sprintf("odd:%d", i), cliNode, time.Millisecond).Killed {
 					return
 				}
+			}
+			viaEndhost = overSCION && tp.Bool(1, 4, "via-endhost-port")
+			if viaEndhost {
+				r.Probe("via-endhost-port")
 			}
 			c.srcPort = 5000
 			if mode == "sampled" && tp.Bool(1, 3, "port") {
